@@ -175,8 +175,9 @@ pub struct Oracle {
     pub step: usize,
     pub leaders: BTreeMap<u64, BTreeSet<u64>>,              // term -> nodes that were Leader with it
     pub supports: BTreeMap<(u64, u64), BTreeSet<u64>>,       // (voter, term) -> candidates supported
-    pub lcommits: Vec<(u64, Option<Ent>)>,                   // entries committed by a leader
+    pub lcommits: Vec<(u64, Option<Ent>, u64)>,              // (index, entry, term of the committing leader)
     pub m_dv: Option<usize>, pub m_sv: Option<usize>, pub m_ad: Option<usize>, pub m_ot: Option<usize>, pub m_av: Option<usize>,
+    pub m_nq: Option<usize>,                                // commit-without-quorum (RaftLog.v: nq_node)
     pub voted_term: BTreeMap<u64, u64>,                     // voter -> highest term it answered Ok to a Vote request for
     pub failures: Vec<Failure>,
     pub seen: BTreeSet<&'static str>,
@@ -196,7 +197,7 @@ impl Oracle {
         let election = [("double-vote", self.m_dv), ("stale-vote-counted", self.m_sv)];
         let all = [("double-vote", self.m_dv), ("stale-vote-counted", self.m_sv),
                    ("ack-from-diverged-log", self.m_ad), ("old-term-commit", self.m_ot),
-                   ("ack-below-voted-term", self.m_av)];
+                   ("ack-below-voted-term", self.m_av), ("commit-without-quorum", self.m_nq)];
         let cls = match kind {
             "two-leaders-in-term" => self.classify(&election),
             "committed-entries-differ" | "new-leader-misses-committed-entry" => self.classify(&all),
@@ -208,8 +209,8 @@ impl Oracle {
     pub fn flags(&self) -> String {
         let f = |k: &str| if self.seen.contains(k) { 0 } else { 1 };
         let m = |x: &Option<usize>| if x.is_some() { 1 } else { 0 };
-        format!("es={} agree={} lc={} dv={} sv={} ad={} ot={} av={}", f("two-leaders-in-term"), f("committed-entries-differ"),
-                f("new-leader-misses-committed-entry"), m(&self.m_dv), m(&self.m_sv), m(&self.m_ad), m(&self.m_ot), m(&self.m_av))
+        format!("es={} agree={} lc={} dv={} sv={} ad={} ot={} av={} nq={}", f("two-leaders-in-term"), f("committed-entries-differ"),
+                f("new-leader-misses-committed-entry"), m(&self.m_dv), m(&self.m_sv), m(&self.m_ad), m(&self.m_ot), m(&self.m_av), m(&self.m_nq))
     }
 }
 
@@ -373,12 +374,15 @@ impl World {
                     self.orc.fail("C27", "two-leaders-in-term", d);
                 }
             }
-            // C29: a node that becomes leader holds every entry committed by a leader before
+            // C29 (Raft's Leader Completeness): a node that becomes leader holds every entry committed before by a
+            // leader of a LOWER term.  A stale candidate that becomes leader of an older term after the commit
+            // (delayed votes) is not covered: it cannot commit anything, and textbook Raft allows it too
+            // (Props/C29.v: C29_literal_refuted_by_late_leader; corpus/C29/00_late_leader_older_term.txt).
             if a.leader && !b.leader {
                 self.orc.leader_changes += 1;
                 let miss: Vec<String> = self.orc.lcommits.iter()
-                    .filter(|(idx, e)| a.logs.get((*idx - 1) as usize).copied() != *e)
-                    .map(|(idx, e)| format!("index {} committed {:?} new leader {} has {:?}", idx, e, i, a.logs.get((*idx - 1) as usize)))
+                    .filter(|(idx, e, t)| *t < a.term && a.logs.get((*idx - 1) as usize).copied() != *e)
+                    .map(|(idx, e, t)| format!("index {} committed {:?} in term {} new leader {} (term {}) has {:?}", idx, e, t, i, a.term, a.logs.get((*idx - 1) as usize)))
                     .collect();
                 if !miss.is_empty() { self.orc.fail("C29", "new-leader-misses-committed-entry", miss.join("; ")); }
             }
@@ -400,7 +404,11 @@ impl World {
                         let e = a.logs.get((idx - 1) as usize).copied();
                         let old = match e { Some(x) => x.1 != a.term, None => true };
                         if old && self.orc.m_ot.is_none() { self.orc.m_ot = Some(step); }
-                        self.orc.lcommits.push((idx, e));
+                        // commit-without-quorum: fewer than size/2+1 nodes of the leader's term hold its entry at idx
+                        // (the leader counted a peer-table row that is not an acknowledgement of its entry)
+                        let holders = after.iter().filter(|s| s.term == a.term && s.logs.get((idx - 1) as usize).copied() == e).count() as u64;
+                        if holders < (after.len() as u64) / 2 + 1 && self.orc.m_nq.is_none() { self.orc.m_nq = Some(step); }
+                        self.orc.lcommits.push((idx, e, a.term));
                     }
                 }
             }
